@@ -182,6 +182,45 @@ for _p, _fs in _DEPENDS.items():
             PROP_FUNCS[_p].append(_t)
 
 
+# closure: every function of the files a property is anchored in (properties.jsonl + fingerprint.EXTRA) is on record,
+# except pure output (log / xyz / csv writers, plot rendering) and the wrappers of external engines that no model describes
+_OUTPUT_ONLY = {"dump_minima_csv", "get_line_collection", "cut_line_collection", "plot_disconnectivity_graph", "set_xyz",
+                "write_fit", "get_score", "initialise_kernel", "function_and_std", "convex_hull", "point_in_hull"}
+_SKIP_FILES = {"potentials/force_fields.py"}
+
+
+def _anchored_closure():
+    try:
+        import fingerprint
+    except Exception:  # noqa: BLE001
+        return
+    for prop in list(PROP_FUNCS):
+        seen = set(PROP_FUNCS[prop])
+        for f in fingerprint.files_of(prop):
+            rel = f.replace("src/topsearch/", "")
+            if rel in _SKIP_FILES:
+                continue
+            try:
+                tree = parse(rel)
+            except Unavailable:
+                continue
+            for n in tree.body:
+                items = [(None, n)] if isinstance(n, ast.FunctionDef) else \
+                    [(n.name, m) for m in n.body if isinstance(m, ast.FunctionDef)] if isinstance(n, ast.ClassDef) else []
+                for cls, fn in items:
+                    if fn.name.startswith(("write_", "plot_")) or fn.name in _OUTPUT_ONLY:
+                        continue
+                    if cls == "GaussianProcess" and fn.name == "function":
+                        continue
+                    t = (rel, cls, fn.name)
+                    if t not in seen:
+                        PROP_FUNCS[prop].append(t)
+                        seen.add(t)
+
+
+_anchored_closure()
+
+
 def _key(rel, cls, name):
     return f"{rel}:{cls + '.' if cls else ''}{name}"
 
